@@ -67,7 +67,7 @@ PfnPages == { <<If(c, <<Call("T1", <<Pos(<<Txt(<<"y">>)>>)>>)>>, <<Txt(<<"n">>)>
                    <<Link(<<<<Txt(<<"a">>)>>, <<Call("T1", <<Pos(<<Txt(<<"l">>)>>)>>), Call("T2", <<>>)>>>>)>>,
                    <<Ext(<<Call("Sp", <<>>), Inv("echo", <<Pos(<<Txt(<<"e">>)>>)>>)>>)>>,
                    <<Call("T1", <<Pos(<<Link(<<<<Txt(<<"b">>)>>, <<Call("A", <<>>)>>>>)>>)>>)>> }
-InvPages == { <<Inv(fn, <<Pos(v)>>)>> : fn \in {"echo", "err", "pre", "tpl"}, v \in {<<Txt(<<"a">>)>>, <<Call("T1", <<Pos(<<Txt(<<"i">>)>>)>>)>>} }
+InvPages == { <<Inv(fn, <<Pos(v)>>)>> : fn \in {"echo", "err", "pre", "tpl", "pyx", "pcx"}, v \in {<<Txt(<<"a">>)>>, <<Call("T1", <<Pos(<<Txt(<<"i">>)>>)>>)>>} }
             \cup { <<Call("T1", <<Pos(<<Inv("echo", <<Pos(<<Txt(<<"a">>)>>)>>)>>)>>)>>,
                    <<Inv("err", <<>>), Inv("echo", <<Pos(<<Txt(<<"b">>)>>)>>), Inv("err", <<>>)>>,
                    <<If(<<Inv("err", <<>>)>>, <<Inv("echo", <<Pos(<<Txt(<<"c">>)>>)>>)>>, <<>>)>>,
